@@ -7,6 +7,7 @@ import SSJ.Model.Matcher
 import SSJ.Model.Session
 import SSJ.Model.Converter
 import SSJ.Model.Profiler
+import SSJ.Spec.Spec
 
 open Lean SSJ
 
@@ -331,6 +332,20 @@ def handle (j : Json) : D Json := do
       | .ok (h, rows) => pure (Json.mkObj [("ok", Json.mkObj [("columns", encStrList h), ("rows", Json.arr (rows.map encRow).toArray)])])
       | .error e => pure (Json.mkObj [("err", Json.str (encErr e))])
     | _, _ => throw "missing_pairs needs frames"
+  | "spec_sim" =>
+    -- the Lean SPEC (not the model) evaluated on two token sets: used to validate the spec against py_stringmatching
+    let m ← strF j "measure"
+    let a ← decStrList (← fld j "a")
+    let b ← decStrList (← fld j "b")
+    let t ← decPyV (← fld j "threshold")
+    let cop := strFD j "comp_op" ">="
+    match Measure.ofName? m with
+    | none => throw s!"bad measure {m}"
+    | some mm =>
+      pure (Json.mkObj [("ok", Json.mkObj [
+        ("sim", encPyV (Spec.simSet mm a b)), ("score4", encPyV (Spec.score4 mm a b)),
+        ("strict", Json.bool (Spec.qualStrict mm cop t a b)), ("rounded", Json.bool (Spec.qualRounded mm cop t a b)),
+        ("ovc", encPyV (Spec.ovcScore a b)), ("both_empty", Json.bool (Spec.bothEmpty a b))])])
   | "qgrams" =>
     let s ← strF j "s"
     pure (Json.mkObj [("ok", encStrList (qgrams (← natF j "q") (boolFD j "pad" true) s))])
